@@ -148,7 +148,43 @@ class _Pub:
         pass
 
 
+def _is_num(v):
+    from engine.symex import SNum
+
+    return isinstance(v, (int, float, SNum)) and not isinstance(v, str)
+
+
+def _is_int(v):
+    from engine.symex import SNum
+
+    return isinstance(v, int) or (isinstance(v, SNum) and v.is_int)
+
+
+def _is_bool(v):
+    from engine.symex import SBool
+
+    return isinstance(v, (bool, int, SBool))
+
+
+_ELEM = {"Boolean": _is_bool, "Integer": _is_int, "Double": _is_num, "Float": _is_num, "String": lambda v: isinstance(v, str)}
+
+
+def _accepts(tname, v):
+    """Argument type rules of the compiled ntcore getters (probed on the real module: a str default for a
+    DoubleTopic, a float for an IntegerTopic, an int for a StringTopic raise TypeError; bool/int interconvert)."""
+    base = tname[:-5]  # strip 'Topic'
+    if base in ("Struct", "StructArray"):
+        return True
+    if base == "Raw":
+        return isinstance(v, (bytes, bytearray, memoryview))
+    if base.endswith("Array"):
+        return isinstance(v, (list, tuple)) and all(_ELEM[base[:-5]](x) for x in v)
+    return _ELEM[base](v)
+
+
 def _mk(tname):
+    raw = tname == "RawTopic"
+
     class T:
         TYPE = tname
 
@@ -158,20 +194,34 @@ def _mk(tname):
             self.extra = a
             STORE.types[self.key] = (tname,) + tuple(getattr(x, "__name__", str(x)) for x in a)
 
-        def getEntry(self, default, *a):
-            return _Entry(self.key, default)
+        def _args(self, what, a, want_default):
+            # RawTopic getters take (typeString, defaultValue, ...); all others (defaultValue, ...)
+            a = list(a)
+            if raw:
+                if not a or not isinstance(a[0], str):
+                    raise TypeError(f"{what}(): incompatible function arguments (RawTopic needs a typeString first)")
+                a = a[1:]
+            if want_default:
+                if not a or not _accepts(tname, a[0]):
+                    raise TypeError(f"{what}(): incompatible function arguments for {tname}: {a[:1]!r}")
+                return a[0]
+            return None
+
+        def getEntry(self, *a):
+            return _Entry(self.key, self._args("getEntry", a, True))
 
         def getEntryEx(self, typestr, default, *a):
             return _Entry(self.key, default)
 
         def publish(self, *a):
+            self._args("publish", a, False)
             return _Pub(self.key)
 
         def publishEx(self, *a):
             return _Pub(self.key)
 
-        def subscribe(self, default, *a):
-            return _Entry(self.key, default)
+        def subscribe(self, *a):
+            return _Entry(self.key, self._args("subscribe", a, True))
 
         def __getattr__(self, n):
             if n.startswith("__"):
